@@ -122,6 +122,25 @@ def run_check(tier, seed):
             cases.append(f"SANP {rng.choice(['semver', 'pep440', 'key'])} " + hx(rand_str(rng)))
     correspond(run, "presets_and_uint", cases, **kw)
 
+    # long digit runs: values around and beyond u32 / u64 / u128, with and without leading zeros - a sanitiser that goes through an
+    # integer type (parse::<u64>() and print) instead of working on the text is wrong only here
+    cases = []
+    edges = [2 ** 32 - 1, 2 ** 32, 2 ** 63, 2 ** 64 - 1, 2 ** 64, 10 ** 19, 10 ** 19 - 1, 10 ** 20, 2 ** 128 - 1, 2 ** 128, 10 ** 40 + 7]
+    nl = 1500 if tier == "quick" else 40000
+    for i in range(nl):
+        v = rng.choice(edges) + rng.choice([0, 0, 1, -1, rng.randint(-1000, 1000)]) if rng.random() < 0.6 else rng.randint(0, 10 ** rng.randint(1, 45))
+        d = "0" * rng.choice([0, 0, 1, 2, 5]) + str(max(v, 0))
+        r = rng.random()
+        if r < 0.35:
+            ws = rng.choice(["", "", " ", "\t", "  "])
+            cases.append("SANP uint " + hx(ws + d + rng.choice(["", "", " "])))
+        elif r < 0.55:
+            cases.append(f"SANP {rng.choice(['semver', 'pep440', 'key'])} " + hx(rng.choice(["", "v", "rel/", "a-"]) + d + rng.choice(["", ".x", "/0" + d[:3], "-00"])))
+        else:
+            text = rng.choice(["", "x.", "a/"]) + d + rng.choice(["", ".0" + d, "-b", "_007"])
+            cases.append(san(rng.choice(SEPS), rng.random() < 0.5, rng.random() < 0.5, rng.choice([None, None, 19, 20, 21, 40]), text))
+    correspond(run, "long_digit_runs_around_u64_u128", cases, **kw)
+
     # multi-character and alphanumeric separators: outside the property's quantifier, compared with the model only
     cases = []
     for _ in range(nr // 6):
